@@ -387,22 +387,12 @@ mod imp {
                     }
                 }
                 "open" => {
+                    // one more permit for the caller's gates (does not wait)
                     let c = usize::try_from(as_u64(&ev["c"])).expect("c");
-                    if c >= progs.len() || !started[c] {
+                    if c >= progs.len() {
                         continue;
                     }
-                    let st = &sh.callers[c];
-                    let ok = wait_until(&sh, true, || {
-                        st.done.load(Ordering::SeqCst)
-                            || st.gates_hit.load(Ordering::SeqCst) > st.gates_open.load(Ordering::SeqCst)
-                    });
-                    if !ok {
-                        stuck = true;
-                        break;
-                    }
-                    if !st.done.load(Ordering::SeqCst) {
-                        let _ = st.gates_open.fetch_add(1, Ordering::SeqCst);
-                    }
+                    let _ = sh.callers[c].gates_open.fetch_add(1, Ordering::SeqCst);
                 }
                 "reg" => {
                     let c = usize::try_from(as_u64(&ev["c"])).expect("c");
